@@ -61,6 +61,7 @@ SECRET = "000102030405060708090a0b0c0d0e0f101112131415161718191a1b1c1d1e1f"
 
 KINDS = ["cr", "ca", "cn", "tr", "ta", "cj", "pj", "er", "ep", "pap", "chap", "ip", "i6", "v6", "unk"]
 MACS = ["020000aa0001", "020000bb0002"]
+MACS_MORE = MACS + ["fe12345678ab"]      # random share: a MAC with all bytes non-trivial
 SVS = [0, 100, 101]      # 0 = untagged
 CVS = [0, 10, 11]        # 0 = single-tagged
 BASES = [(m, s_, c_) for m in MACS for s_ in SVS for c_ in CVS]
@@ -139,6 +140,15 @@ def gen_sq(rng, tier):
                 st.append(v("g0", T0, "x%d.%d" % (i, mask)))
         st.append(v("g0", T0))
         cases.append("sq %d %s" % (60 * S1, " ".join(st)))
+    # "a cookie THIS BNG issued": a second cookie manager (another BNG, a restart: fresh secret) accepts none of the
+    # cookies of the first one, and vice versa; raw bytes nobody issued (all-zero, all-ff, random, 36 and 40 long)
+    for t in T[:3]:
+        raws = ["00" * 36, "ff" * 36, "".join("%02x" % rng.randint(0, 255) for _ in range(36)),
+                "".join("%02x" % rng.randint(0, 255) for _ in range(40)), "00" * 4 + "ff" * 32]
+        cases.append("sq %d %s" % (60 * S1, " ".join(
+            ["G/" + tup(t), v("g0", t)] + [v("z" + r_, t) for r_ in raws] +
+            ["N", v("g0", t), "G/" + tup(t), v("g1", t), v("g0", t), v("g1", t, "x5.1"), "N", v("g1", t), v("g0", t),
+             "G/" + tup(t), v("g2", t)] + [v("z" + r_, t) for r_ in raws[:2]])))
     for t in T:
         o = B if t != B else A
         cases.append("sq %d %s" % (60 * S1, " ".join([
@@ -280,8 +290,8 @@ def gen_tb_one(rng, ttl=60, scale=None):
     if rng.random() < 0.5:
         hosts = [A, B, A2, A3] + ([O] if rng.random() < 0.3 else [])
     else:
-        base = rng.choice(BASES)
-        nb = neighbours(base)
+        base = rng.choice(BASES + [(m, s_, c_) for m in MACS_MORE[2:] for s_ in SVS for c_ in CVS])
+        nb = neighbours(base) + [(base[0], base[1] ^ 1, base[2] ^ 1)]
         rng.shuffle(nb)
         hosts = [base, base] + nb[:rng.randint(2, 5)] + ([O] if rng.random() < 0.2 else [])
         grp = "0-199"
@@ -451,6 +461,55 @@ def gen_tb_fieldblock(rng, tier):
     return cases
 
 
+def gen_tb_sidspace(rng, tier):
+    """regions of the 16-bit session-id space and ids that alias when a byte is dropped or swapped: sessions restored
+    at 1, 255, 256, 257, 0x0102, 0x0201, 0x7fff, 0x8000, 0x8001, 0xff00, 0xfffe, 0xffff for DIFFERENT hosts; every
+    owner addresses its own id (reached / terminated) and the ids that alias with it (low byte only, high byte only,
+    bytes swapped, top bit dropped, +-1): nothing may be reached; then new PADRs walk across the wrap"""
+    ids = [1, 255, 256, 257, 0x0102, 0x0201, 0x7fff, 0x8000, 0x8001, 0xff00, 0xfffe, 0xffff]
+    hosts = [("0200%02xaa%04x" % (i, sid), 100 + i % 3, (i * 7) % 12) for i, sid in enumerate(ids)]
+    cases = []
+    for part in (0, 1):
+        ops = ["X/%d/%s" % (sid, tup(h)) for sid, h in zip(ids, hosts)]
+        for sid, h in list(zip(ids, hosts))[part::2]:
+            alias = {sid & 0xff, sid >> 8, ((sid & 0xff) << 8) | (sid >> 8), sid & 0x7fff, sid | 0x8000, (sid + 1) & 0xffff,
+                     (sid - 1) & 0xffff, sid ^ 0x0100, sid ^ 0x0001} - {sid}
+            ops.append("S/%s/%d/er" % (tup(h), sid))
+            for a in sorted(alias):
+                ops.append("S/%s/%d/cr" % (tup(h), a))
+                ops.append("T/%s/%d" % (tup(h), a))
+            ops.append("S/%s/%d/cr" % (tup(h), sid))
+        ops += ["T/%s/%d" % (tup(h), sid) for sid, h in list(zip(ids, hosts))[part::2]]
+        # the counter stands at 0 after restoring 0xffff: new sessions get fresh ids, never one of the survivors
+        ops += ["R/%s/%s" % (tup(A), ck_valid(A)), "R/%s/%s" % (tup(B), ck_valid(B)), "P/3/100"]
+        cases.append("tb 60 G=0-199 occ=- next=- ; " + " ".join(ops))
+    # walks across the wrap with long-lived sessions in the way, from several counter positions
+    for nx, occ in [(65534, "65535-65535,1-1,3-3"), (65535, "1-2,4-6"), (255, "256-256,258-258"), (32767, "32768-32769"),
+                    (65280, "65281-65283")]:
+        ops = ["R/%s/%s" % (tup(h), ck_valid(h)) for h in (A, B, A2, A3, ("020000aa0001", 101, 11), ("020000bb0002", 0, 0))]
+        ops += ["S/%s/%d/cr" % (tup(A), x) for x in (nx, (nx + 1) & 0xffff or 1, 1, 2, 3, 4)]
+        cases.append("tb 60 G=0-199 occ=%s next=%d ; %s" % (occ, nx, " ".join(ops)))
+    return cases
+
+
+def gen_tb_tags(rng, tier):
+    """PADI / PADR with service names, AC-Name, Relay-Session-Id, vendor tags, Host-Uniq of several sizes; a raw
+    cookie nobody issued; same MAC with BOTH VLAN tags different"""
+    T2 = ("020000aa0001", 101, 11)          # differs from A in both tags
+    svc = ["696e7465726e6574", "", "00", "41" * 40]
+    cases = []
+    for t, o in [(A, T2), (T2, A), (B, A)]:
+        ops = []
+        for sn in svc:
+            ops += ["I/%s/n%s,h%s" % (tup(t), sn or "", "0a0b0c"), "R/%s/n%s,h0a0b0c,cP:id" % (tup(t), sn or ""),
+                    "R/%s/n%s,a6f7376626e67,y0102,v00000de90103616263,cP:id" % (tup(o), sn or "")]
+        ops += ["R/%s/s,cr:%s" % (tup(t), "00" * 36), "R/%s/s,cr:%s" % (tup(t), "ab" * 36),
+                "R/%s/n%s,%s" % (tup(t), svc[0], ck_valid(t)), "R/%s/n%s,%s" % (tup(t), svc[0], ck_valid(o)),
+                "R/%s/%s,n%s" % (tup(o), ck_valid(o), svc[3])]
+        cases.append("tb 60 G=0-199 occ=- next=- ; " + " ".join(ops))
+    return cases
+
+
 def gen_tb_teardown(rng, tier):
     """every teardown path frees exactly the id of the session it ends: PADT, dead peer, AAA reject (A), dataplane add
     failure (F), also when the failure arrives late (session already gone, id re-used by another subscriber)"""
@@ -537,7 +596,7 @@ def gen_cases(rng, tier, budget):
     n = (budget or 700) if tier == "quick" else (budget or 12000)
     for _ in range(n):
         cases.append(gen_tb_one(rng, ttl=rng.choice([60, 60, 60, 5])))
-    cases += gen_directed() + gen_tb_collide(rng, tier) + gen_tb_hasync(rng, tier) + gen_tb_fieldblock(rng, tier) + gen_tb_teardown(rng, tier) + gen_tb_race(rng, tier) + gen_tb_attr(rng, tier)
+    cases += gen_directed() + gen_tb_collide(rng, tier) + gen_tb_hasync(rng, tier) + gen_tb_fieldblock(rng, tier) + gen_tb_sidspace(rng, tier) + gen_tb_tags(rng, tier) + gen_tb_teardown(rng, tier) + gen_tb_race(rng, tier) + gen_tb_attr(rng, tier)
     # quick: one history with 65535 sessions (last id taken -> id space full -> freed -> two PADRs race for it)
     cases += FULLSCALE[1:]
     if tier == "thorough":
